@@ -17,8 +17,6 @@
 
 using namespace vh;
 
-#include "consteval_scripts.inc"
-
 template <typename Char>
 struct Src {
     Char* p;
